@@ -249,21 +249,21 @@ func (r *Report) Finish(w *World, verifDir string, loadErr error) int {
 		}
 	}
 	cov := map[string]any{
-		"explanation": "Static analysis of /repo's current source (go/packages + go/ssa + repo call graph). Decides the structural NECESSARY conditions listed under 'rules' for every path of the analysed functions; it does not decide the behavioural property itself (see DESIGN.md, section of this property, 'Residual'). " + strings.Join(r.Explain, " | "),
-		"obligations": nObl,
-		"discharged":  nDis + nKnown*0,
-		"violated":    nViol,
-		"known":       nKnown,
-		"undecided":   nUndec,
-		"rules":       r.Explain,
-		"per_rule":    perRule,
-		"min_expected": r.MinExpected,
-		"samples":     samples,
-		"analysed":    analysed,
-		"checker_cmd": fmt.Sprintf("bin/dscheck -property %s -tier %s", r.Property, r.Tier),
-		"trusted_base": append([]string{"Go type checker (go/types)", "golang.org/x/tools v0.29.0 go/packages, go/ssa", "rule tables in /verif/internal/rules (confirmed by reading on the pinned tree)"}, r.Trusted...),
+		"explanation":    "Static analysis of /repo's current source (go/packages + go/ssa + repo call graph). Decides the structural NECESSARY conditions listed under 'rules' for every path of the analysed functions; it does not decide the behavioural property itself (see DESIGN.md, section of this property, 'Residual'). " + strings.Join(r.Explain, " | "),
+		"obligations":    nObl,
+		"discharged":     nDis + nKnown*0,
+		"violated":       nViol,
+		"known":          nKnown,
+		"undecided":      nUndec,
+		"rules":          r.Explain,
+		"per_rule":       perRule,
+		"min_expected":   r.MinExpected,
+		"samples":        samples,
+		"analysed":       analysed,
+		"checker_cmd":    fmt.Sprintf("bin/dscheck -property %s -tier %s", r.Property, r.Tier),
+		"trusted_base":   append([]string{"Go type checker (go/types)", "golang.org/x/tools v0.29.0 go/packages, go/ssa", "rule tables in /verif/internal/rules (confirmed by reading on the pinned tree)"}, r.Trusted...),
 		"known_findings": kf,
-		"exhaustive":  false,
+		"exhaustive":     false,
 	}
 	for k, v := range r.Extra {
 		cov[k] = v
